@@ -27,6 +27,22 @@ Writers ==
     [t |-> "render", name |-> S("p"), mode |-> "for", src |-> Range(1, 2), as |-> "v", args |-> <<>>],
     [t |-> "capture", var |-> "cc", body |-> <<Txt("in"), Out(V("v"))>>], Out(V("nosuch")) }
 
+\* a pending break / continue while an enclosing construct still has something to write
+Intr(kk) == [t |-> kk]
+Wrappers(b) ==
+  { <<[t |-> "ifchanged", body |-> b]>>,
+    <<[t |-> "tablerow", var |-> "r", src |-> Range(1, 2), lim |-> NoAttr, off |-> NoAttr, cols |-> NoAttr, body |-> b]>>,
+    <<[t |-> "capture", var |-> "cc", body |-> b], Out(V("cc"))>>,
+    <<[t |-> "include", name |-> S("pb"), args |-> <<>>], Txt("+")>>,
+    <<[t |-> "render", name |-> S("pb"), mode |-> "plain", args |-> <<[k |-> "i", x |-> V("i")]>>], Txt("+")>>,
+    <<IfT(V("i"), b), Txt("+")>>, b }
+IntrProgs ==
+  UNION {{ <<Txt("a"), Loop("i", 1, 3, w \o <<Txt(",")>>), Txt("z")>> :
+             w \in Wrappers(<<Out(V("i")), Intr(kk), Txt("x")>>) } : kk \in {"break", "continue"}}
+
+PartSet == [n \in {"p", "pb"} |->
+              IF n = "p" THEN [ok |-> TRUE, body |-> <<Txt("<"), Out(V("v")), Txt(">")>>]
+              ELSE [ok |-> TRUE, body |-> <<Out(V("i")), [t |-> "break"], Txt("x")>>]]
 RECURSIVE Seqs(_)
 Seqs(n) == IF n = 0 THEN {<<>>} ELSE {<<s>> \o r : s \in Writers, r \in Seqs(n - 1)}
 Progs ==
@@ -34,9 +50,9 @@ Progs ==
   {<<Loop("i", 1, 2, <<w, Txt(",")>>), Txt(".")>> : w \in Writers} \cup
   {<<IfT(V("v"), <<w>>), IfT(V("nosuch"), <<w>>)>> : w \in Writers} \cup
   {<<[t |-> "capture", var |-> "cc", body |-> <<w, Txt("+")>>], Out(V("cc")), Txt("$")>> : w \in Writers} \cup
-  {<<Loop("i", 1, 2, <<Loop("j", 1, 2, <<w>>), [t |-> "ifchanged", body |-> <<w>>]>>), Loop("i", 2, 1, <<w>>)>> : w \in Writers}
+  {<<Loop("i", 1, 2, <<Loop("j", 1, 2, <<w>>), [t |-> "ifchanged", body |-> <<w>>]>>), Loop("i", 2, 1, <<w>>)>> : w \in Writers} \cup
+  IntrProgs
 
-PartSet == [n \in {"p"} |-> [ok |-> TRUE, body |-> <<Txt("<"), Out(V("v")), Txt(">")>>]]
 TheData == [n \in {"v"} |-> StrV("V")]
 
 VARIABLE k
